@@ -472,7 +472,7 @@ class Models:
                 seq = IterV(n, lambda i: o.v.project(st, vals[keys[i]], (ref, keys[i], "dict")), concrete=conc)
             else:
                 seq = IterV(n, lambda i: (o.k.project(st, keys[i]), o.v.project(st, vals[keys[i]], (ref, keys[i], "dict"))), concrete=conc)
-            seq.keys, seq.pos = o.keys, o.pos
+            seq.keys, seq.pos, seq.member = o.keys, o.pos, o.member
             return seq
         raise Unsupported(f"iteration over {v!r}")
 
@@ -1164,11 +1164,16 @@ class Models:
         st = ex.st
         from .engine import IterV
 
+        r = self._plug("comprehension", ex, node, kind)  # plugins may summarise specific comprehension shapes (e.g. [d[x] for x in names])
+        if r is not NotImplemented:
+            return r
         if len(node.generators) != 1 or node.generators[0].is_async:
             raise Unsupported("comprehension with several generators")
         gen = node.generators[0]
         src = ex.ev(gen.iter)
         seq = ex.to_iter(src, node.lineno)
+        if isinstance(src, Ref) and isinstance(st.heap[src.id], PyObj) and getattr(seq, "source_dict", None) is not None:
+            src = seq.source_dict  # an object whose __iter__ is `iter(self.<dict>)`: the comprehension runs over that dict's keys
         fr = ex.frame
         saved = dict(fr.env)
 
@@ -1206,16 +1211,46 @@ class Models:
             bi = st.fresh_int("ci")
             depth = len(st.dec.trail)
             npc = len(st.pc)
+            from .engine import PyRaise
+
+            def _mentions_bi(f):
+                stack, seen = [f], set()
+                while stack:
+                    t = stack.pop()
+                    if t.get_id() in seen:
+                        continue
+                    seen.add(t.get_id())
+                    if t.eq(bi):
+                        return True
+                    stack.extend(t.children())
+                return False
+
             ex.no_fork = True
+            raised = None
+            # the facts about the generic index (0 <= bi < n, hence n >= 1) must not survive in the feasibility solver
+            st.solver.push()
             try:
                 st.assume(z3.And(0 <= bi, bi < seq.n))
                 cond, val = body(bi)
+            except PyRaise as e:
+                raised = e
             finally:
                 ex.no_fork = False
-            if len(st.dec.trail) != depth:
-                raise Unsupported(f"comprehension element forks at line {node.lineno}")
-            # facts learnt about the generic index are only valid for it: drop them again
+                st.solver.pop()
+            new_facts = st.pc[npc + 1:]
+            forked = len(st.dec.trail) != depth
+            if (forked or raised is not None) and any(_mentions_bi(f) for f in new_facts):
+                raise Unsupported(f"comprehension element forks on its own index at line {node.lineno}")
+            # facts learnt about the generic index are only valid for it: drop them; a fork / exception that does not depend on
+            # the index is the same for every element (it happens at the first one, which exists)
             del st.pc[npc:]
+            if forked or raised is not None:
+                for f in new_facts:
+                    st.pc.append(f)
+                    st._add_solver(f)
+            if raised is not None:
+                st.assume(seq.n > 0)
+                raise raised
             i = z3.Int("i!c")
             if kind in ("list", "gen"):
                 if gen.ifs:
@@ -1309,6 +1344,7 @@ class Models:
             ax2 = z3.ForAll([i], z3.Implies(z3.And(0 <= i, i < seq.n, cond_at(i)), z3.And(0 <= dst[i], dst[i] < n, src[dst[i]] == i)), patterns=[dst[i]])
         st.assume(ax2)
         st.assume(z3.ForAll([i, j], z3.Implies(z3.And(0 <= i, i < j, j < n), src[i] < src[j]), patterns=[z3.MultiPattern(src[i], src[j])]))
+        self._plug("filtered_sequence", ex, seq, cond_at, n, src, dst)  # derived facts a plugin adds for its own module (plug_hdf: rank lemma)
         if kind == "gen":
             it = IterV(n, lambda x: t.project(st, res[x]))
             it.elem_type = t
